@@ -466,13 +466,28 @@ func checkC10(c *Ctx) {
 			os.RemoveAll(sc.target)
 		}
 		// (2d) a real ENOSPC on a tiny tmpfs
-		if sc.big {
+		for _, stale := range []bool{false, true} {
+			if !sc.big {
+				break
+			}
 			sc.reset()
-			if err := unix.Mount("tmpfs", sc.dir, "tmpfs", 0, "size=32k"); err != nil {
+			size := "size=32k"
+			if stale {
+				// room for the new file only once an old writer's leftover is out of the way
+				size = "size=256k"
+			}
+			if err := unix.Mount("tmpfs", sc.dir, "tmpfs", 0, size); err != nil {
 				c.Count("enospc_skipped_mount_refused", 1)
 			} else {
 				if sc.prev {
 					must(os.WriteFile(sc.target, sc.oldData, 0o644))
+				}
+				if stale {
+					left := filepath.Join(sc.dir, "spec.424242.tmp")
+					must(os.WriteFile(left, bytes.Repeat([]byte("#stale\n"), 200*1024/7), 0o600))
+					old := time.Now().Add(-2 * time.Hour)
+					os.Chtimes(left, old, old)
+					c.Count("enospc_runs_with_a_stale_leftover", 1)
 				}
 				cmd := exec.Command(exe, "child-c10write", sc.dir, filepath.Base(sc.target), sc.specFile)
 				err := cmd.Run()
